@@ -98,13 +98,20 @@ func corrExtra(id *int, r *hx.Rng, n int) {
 		fmt.Fprintf(out, "M\t%d\t%s\t%s\n", *id, p, moovPattern(p))
 		*id++
 	}
-	for _, l := range elngLangs {
+	for _, l := range append(append([]string{}, elngLangs...), longLangs...) {
 		fmt.Fprintf(out, "L\t%d\t%s\t%s\n", *id, hs(l), elngObs(l))
 		*id++
 	}
 	corrStpp(id, r, n)
 	for i := 0; i < n; i++ {
-		l := string(r.Bytes(r.Intn(12), []byte("abenUS-\x00zH419")))
+		ln := r.Intn(12)
+		if i%8 == 0 {
+			ln = r.Intn(300) // long tags: no upper bound in the quantifier
+		}
+		l := string(r.Bytes(ln, []byte("abenUS-\x00zH419")))
+		if i%16 == 0 {
+			l = string(r.Bytes(ln, []byte("abenUS-zH419"))) // long and NUL-free
+		}
 		fmt.Fprintf(out, "L\t%d\t%s\t%s\n", *id, hs(l), elngObs(l))
 		*id++
 	}
